@@ -91,6 +91,40 @@ Theorem C05_concurrent_every_serial_order_accepted root offers :
   ra_accept root offers [] (ra_observe root (ra_run root offers)) = true.
 Proof. exact (ra_seq_accept root offers). Qed.
 
+(* ---- nodes files and a node that enforces the security extension (engine `api`, kind nodesfile,
+        `atables` lines): hand-built files with records of unknown (all-zero) id, the own id, ids not
+        valid for their address, duplicates, over-subscribed buckets. With the extension off the
+        relation is ra_accept; with it on no entry may carry an id that is not valid for its address and
+        such candidates are not owed an entry; every serial order of the offers is accepted ---- *)
+Theorem C05_nodesfile_relation_without_security root must may obs :
+  ra_accept_s true root must may obs = ra_accept root must may obs.
+Proof. exact (ra_accept_s_nosec root must may obs). Qed.
+
+Theorem C05_nodesfile_accept_wf root must may obs :
+  ra_accept_s false root must may obs = true ->
+  (forall e b, In (e, b) obs -> ra_secure e = true /\ ra_id e <> root /\ ra_id e <> 0%N) /\
+  NoDup (map fst obs) /\
+  (forall b, (ra_count root b (map fst obs) <= K)%nat) /\
+  (forall e, In e must -> ra_id e <> root -> ra_id e <> 0%N -> ra_secure e = true ->
+     In e (map fst obs) \/ (K <= ra_count root (ra_bucket root e) (map fst obs))%nat).
+Proof. exact (ra_accept_s_wf root must may obs). Qed.
+
+Theorem C05_nodesfile_every_serial_order_accepted nosec root offers :
+  ra_accept_s nosec root offers [] (ra_observe root (ra_run_s nosec root offers)) = true.
+Proof. exact (ra_seq_accept_s nosec root offers). Qed.
+
+Example C05_nodesfile_rejects_zero_and_insecure :
+  ra_accept_s true 1 [ex_e 0 7; ex_e 2 7] [] [(ex_e 2 7, 158%nat)] = true /\
+  ra_accept_s true 1 [ex_e 0 7; ex_e 2 7] [] [(ex_e 2 7, 158%nat); (ex_e 0 7, 159%nat)] = false /\
+  ra_why_s true 1 [ex_e 0 7; ex_e 2 7] [] [(ex_e 2 7, 158%nat); (ex_e 0 7, 159%nat)] = 2%nat /\
+  ra_secure (ex_e 2 7) = false /\
+  ra_accept_s false 1 [ex_e 2 7] [] [(ex_e 2 7, 158%nat)] = false /\
+  ra_why_s false 1 [ex_e 2 7] [] [(ex_e 2 7, 158%nat)] = 7%nat /\
+  ra_accept_s false 1 [ex_e 2 7] [] [] = true /\
+  ra_run_s false 1 [ex_e 2 7; ex_e 0 7; ex_e 1 7] = [] /\
+  ra_run_s true 1 [ex_e 2 7; ex_e 0 7; ex_e 1 7] = [ex_e 2 7].
+Proof. exact ra_rejects_zero_and_insecure. Qed.
+
 (* the counters the `api` engine recomputes (`acount` lines) are the model's API views *)
 Theorem C05_counters_are_the_models (Store : Type) (id_secure : N -> bytes -> bool) (cfg : config) (s : sstate Store) :
   ra_counts (map (fun n => (node_good id_secure cfg (s_now Store s) n, node_bad id_secure cfg n)) (s_nodes Store s))
@@ -136,3 +170,7 @@ Print Assumptions C05_concurrent_accept_wf.
 Print Assumptions C05_concurrent_every_serial_order_accepted.
 Print Assumptions C05_concurrent_rejects_duplicate.
 Print Assumptions C05_counters_are_the_models.
+Print Assumptions C05_nodesfile_relation_without_security.
+Print Assumptions C05_nodesfile_accept_wf.
+Print Assumptions C05_nodesfile_every_serial_order_accepted.
+Print Assumptions C05_nodesfile_rejects_zero_and_insecure.
